@@ -36,7 +36,7 @@ def parseCfg (s : String) : Cfg :=
   let m := kv s
   { otmp := look m "otmp" "1" == "1", sidecar := look m "sidecar" "0" == "1", verDir := look m "verdir" "0" == "1",
     vstatus := (match look m "vstatus" "off" with | "enabled" => .enabled | "suspended" => .suspended | _ => .off),
-    bucket := look m "bucket" "b" }
+    bucket := look m "bucket" "b", atomicReplace := look m "areplace" "0" == "1", tagsFirst := look m "tagsfirst" "0" == "1" }
 
 def parseReq (s : String) : Option Req := do
   let m := kv s
